@@ -118,6 +118,8 @@ type World struct {
 	openings      map[string]int  // swap id -> opening transactions broadcast
 	spentBack     map[string]bool // swap id -> a coop/csv spend of the opening output was broadcast
 	curSwap       string          // swap id the scenario is driving
+	offerSent     map[string]bool // swap id -> the node\'s request/agreement went out
+	cancelTried   map[string]bool // swap id -> the swap went through State_SendCancel
 	btcOn, lbtcOn bool
 	policyPath    string
 }
@@ -150,7 +152,7 @@ func newWorld(cfg WorldCfg) *World {
 	if err != nil {
 		panic(err)
 	}
-	w := &World{dir: dir, faults: map[string][]string{}, idNames: map[string]string{}, secrets: map[string]string{}, revealed: map[string]bool{}, openings: map[string]int{}, spentBack: map[string]bool{}}
+	w := &World{dir: dir, faults: map[string][]string{}, idNames: map[string]string{}, secrets: map[string]string{}, revealed: map[string]bool{}, openings: map[string]int{}, spentBack: map[string]bool{}, offerSent: map[string]bool{}, cancelTried: map[string]bool{}}
 	w.pol = &simPolicy{w: w, acceptAll: cfg.AcceptAll, allow: map[string]bool{}, susp: map[string]bool{}, minMsat: cfg.MinSwapMsat, allowNew: true}
 	for _, p := range cfg.Allowlist {
 		w.pol.allow[p] = true
@@ -416,6 +418,20 @@ func (l *logStore) UpdateData(s *swap.SwapStateMachine) error {
 		fl["spentback"] = b01(l.w.spentBack[id])
 		fl["resend"] = b01(l.w.mgr.active[id])
 		fl["suspicious"] = b01(l.w.pol.IsPeerSuspicious(s.Data.PeerNodeId))
+		fl["timer"] = "0"
+		if l.w.tmr != nil {
+			for _, a := range l.w.tmr.Armed() {
+				if strings.HasPrefix(a, id+"/") {
+					fl["timer"] = "1"
+					fl["timersecs"] = strings.TrimPrefix(a, id+"/")
+				}
+			}
+		}
+		fl["offersent"] = b01(l.w.offerSent[id])
+		fl["canceltried"] = b01(l.w.cancelTried[id] || string(s.Current) == "State_SendCancel")
+		if string(s.Current) == "State_SendCancel" {
+			l.w.cancelTried[id] = true
+		}
 		fl["csvwatch"], fl["invpaid"] = "0", "0"
 		for _, ch := range []*simChain{l.w.btc, l.w.lbtc} {
 			for _, wt := range ch.csvWatch {
@@ -528,6 +544,10 @@ func (m *simMessenger) SendMessage(peerId string, msg []byte, msgType int) error
 		if cc.Privkey != "" {
 			m.w.revealed[id.SwapId] = true
 		}
+	}
+	switch messages.MessageType(msgType) {
+	case messages.MESSAGETYPE_SWAPINREQUEST, messages.MESSAGETYPE_SWAPOUTREQUEST, messages.MESSAGETYPE_SWAPINAGREEMENT, messages.MESSAGETYPE_SWAPOUTAGREEMENT:
+		m.w.offerSent[id.SwapId] = true
 	}
 	a := map[string]string{"to": shortPeer(peerId), "type": msgTypeName(msgType), "sha": shortHash(msg)}
 	if messages.MessageType(msgType) == messages.MESSAGETYPE_COOPCLOSE {
